@@ -11,7 +11,7 @@ Extraction "model.ml"
   api_is_empty api_trim_protocol api_kf_ext_class
   api_it_drop api_it_drop_spec api_it_slice api_it_slice_spec api_it_first api_it_first_result
   api_it_last_result api_it_single api_it_some api_it_consume api_str_size api_str_to_bool
-  api_str_trim_suffix api_opt_has api_take_while_ne
+  api_str_trim_suffix api_opt_has api_take_while_ne api_defer_run
   api_mf_run api_c_run api_wh_trace api_expand api_abs
   api_xdg_home api_xdg_dirs api_getrids api_vfs_config_dir api_sym_mode api_revoking_mode
   api_mfs_init api_mfs_step api_mfs_entries api_mfs_data api_files_list api_render_rpath api_wf_b api_mfs_of_lists api_mk_entry api_set_of_list api_rpath_of_string api_h_init api_hstep api_macro
